@@ -3,14 +3,22 @@ from engine import core
 from . import C02
 from .sync_common import *
 
-INFO = {"outside": "wip", "assumptions": []}
-MANIFEST = {"text": "wip", "note": "wip"}
+INFO = {
+    "outside": 'router-key table / tommy grow step under allocation failure; more than one failure per operation',
+    "assumptions": ['as C02'],
+}
+MANIFEST = {
+    "text": 'The size-class allocator installed through the public lrtr_set_alloc_functions fails the k-th request for a symbolic k: each single prefix-table operation from an arbitrary Inv-valid table reports an error without invalid access, leaves no partial effect on any record and keeps Inv; pfx_table_free returns every block to the configured allocator (ledger = 0); the rtr_sync unit releases everything it allocated on every exit and tolerates table errors (C03 jobs run with failing table operations).',
+    "note": 'Router-key table and tommy under allocation failure are not claimed in the quick tier (F12/F13 candidates are recorded as reading notes in DESIGN.md).',
+    "technique": 'CBMC with a symbolic failing allocation index on real trie-pfx.c + allocator ledger',
+}
 
 
 def jobs(tier):
     J = []
     for (nm, entry, td, te) in (("add", "harness_add", 1, 2), ("remove", "harness_remove", 1, 2), ("srcremove", "harness_src_remove", 0, 2)):
-        j = C02.op_job("allocfail_%s_v4" % nm, entry, td, te, 4, 1500, prop="ASSERT_C18", extra=["ALLOC_FAIL"])
+        j = C02.op_job("allocfail_%s_v4" % nm, entry, td, te, 4, 1500, prop="ASSERT_C18",
+                       extra=["ALLOC_FAIL"] + (["TL_SHAPE=1", "TL_NRECS=2"] if nm == "srcremove" else []))
         j.desc = "k-th allocation fails (k symbolic, 0 = none): " + j.desc
         J.append(j)
     J.append(C02.op_job("ledger_free_v4_d1", "harness_free", 1, 2, 4, 1500, prop="ASSERT_C09", harness="pfx_notify.c"))
